@@ -233,12 +233,18 @@ def _docs(ctx, r, n):
                 blocks.append({"k": "nested", "level": r.randint(1, 6), "how": r.choice(["quote", "list"])})
             elif k < 0.9:
                 a, b = sorted([r.randint(1, 6), r.randint(1, 6)])
-                blocks.append({"k": "toc", "min": a, "max": b})
+                # the options a directive carries, in the order they are written: any subset, any order; an option that is
+                # absent means the configured default (1..6); a flag option (collapse) may stand before or after the levels
+                opts = r.choice([["min", "max"], ["min", "max"], ["max", "min"], ["min"], ["max"], [], ["collapse", "min", "max"],
+                                 ["collapse", "min"], ["collapse", "max"], ["min", "collapse", "max"], ["min", "max", "collapse"], ["collapse"],
+                                 ["max", "collapse", "min"]])
+                blocks.append({"k": "toc", "min": a if "min" in opts else 1, "max": b if "max" in opts else 6, "opts": opts,
+                               "wmin": a, "wmax": b, "title": r.choice(["", "", "Contents", "In this page"])})
             else:
                 blocks.append({"k": "hr"})
         a, b = sorted([r.randint(1, 6), r.randint(1, 6)])
-        docs.append({"blocks": blocks, "range": [a, b], "mode": r.choice(["hook", "hook", "directive"]),
-                     "escape": r.random() < 0.7})
+        docs.append({"blocks": blocks, "range": [a, b], "mode": r.choice(["hook", "hook", "directive", "directive"]),
+                     "style": r.choice(["fenced", "rst"]), "escape": r.random() < 0.7})
     return docs
 
 
@@ -256,7 +262,13 @@ def _md_of(doc):
             out.append(("> " if b["how"] == "quote" else "- ") + "#" * b["level"] + " nested heading\n")
         elif b["k"] == "toc":
             if doc["mode"] == "directive":
-                out.append("```{toc}\n:min-level: %d\n:max-level: %d\n```\n" % (b["min"], b["max"]))
+                lines = [{"min": ":min-level: %d" % b.get("wmin", b["min"]), "max": ":max-level: %d" % b.get("wmax", b["max"]), "collapse": ":collapse:"}[o]
+                         for o in b.get("opts", ["min", "max"])]
+                title = b.get("title", "")
+                if doc.get("style") == "rst":
+                    out.append(".. toc::" + (" " + title if title else "") + "\n" + "".join("   " + ln + "\n" for ln in lines))
+                else:
+                    out.append("```{toc}" + (" " + title if title else "") + "\n" + "".join(ln + "\n" for ln in lines) + "```\n")
             else:
                 out.append("para toc\n")
         elif b["k"] == "inc":
@@ -269,7 +281,9 @@ def _md_of(doc):
 
 def _converter(m, doc):
     from mistune.toc import add_toc_hook
-    from mistune.directives import FencedDirective, TableOfContents
+    from mistune.directives import FencedDirective, RSTDirective, TableOfContents
+    if doc.get("style") == "rst":
+        FencedDirective = RSTDirective  # noqa: N806  (the include fixtures are written for the fenced style only)
     inc = any(b["k"] == "inc" for b in doc["blocks"])
     if inc:
         from mistune.directives import Include
@@ -309,6 +323,7 @@ def _inc_docs(ctx, r, n):
     """documents that include the same Markdown file (with headings of its own) once, twice or three times"""
     docs = _docs(ctx, r, n)
     for d in docs:
+        d["style"] = "fenced"
         for _ in range(r.randint(1, 3)):
             d["blocks"].insert(r.randint(0, len(d["blocks"])), {"k": "inc"})
     return docs
@@ -385,7 +400,13 @@ def check_doc(m, doc, fails):
     else:
         want_all = [(b["level"], "toc_%d" % (i + 1), esc(b["plain"])) for i, b in enumerate(heads)]
         secs = [b for b in doc["blocks"] if b["k"] == "toc"]
-        tocs = re.findall(r'<details class="toc" open>\n<summary>Table of Contents</summary>\n(.*?)</details>\n', out, re.S)
+        found = re.findall(r'<details class="toc"( open)?>\n<summary>([^<]*)</summary>\n(.*?)</details>\n', out, re.S)
+        tocs = [f[2] for f in found]
+        frames = [(f[0] == "", f[1]) for f in found]
+        want_frames = [("collapse" in b.get("opts", []), b.get("title") or "Table of Contents") for b in secs]
+        if len(tocs) == len(secs) and frames != want_frames:
+            fails.append({"input": doc, "md": text, "kind": "directive-frame", "got": frames, "expected": want_frames, "html": out})
+            return
         if len(tocs) != len(secs):
             fails.append({"input": doc, "md": text, "kind": "directive-count", "got": len(tocs), "expected": len(secs), "html": out})
             return
@@ -439,7 +460,7 @@ def oracle(ctx, extra):
                     "outside 1..6), output parsed by a strict ul/li/a reader and compared with the closest-preceding-"
                     "shallower tree; documents: random mixes of atx/setext headings with inline markup (star and underscore emphasis, code, inline and reference links, backslash escapes, & and <, inline HTML of every kind: tags, comments, processing instructions, declarations, CDATA), paragraphs, "
                     "headings nested in quotes/lists (must be ignored), toc sections with ranges, via add_toc_hook and "
-                    "via the TableOfContents directive, escape on/off; a sixth of the documents converted with a file context and including one Markdown file with two headings one to three times (each inclusion contributes its headings); ids, order, listed items, entry text checked; "
+                    "via the TableOfContents directive in the fenced and the RST style, with every subset and order of the options min-level / max-level / collapse (an absent level means the configured default) and optional titles (frame: open unless collapsed, summary = title), escape on/off; a sixth of the documents converted with a file context and including one Markdown file with two headings one to three times (each inclusion contributes its headings); ids, order, listed items, entry text checked; "
                     "non-trivial = at least two distinct levels / at least one heading" % ctx.n(5, 7),
             "samples": [json.dumps(seqs[4000]), json.dumps(_md_of(docs[0]))]}
 
